@@ -544,11 +544,43 @@ Theorem C06_wiring_CubePartition_cube_index :
 Proof. exact Proofs.GenAgreeWiring_C06.gen_wiring_CubePartition_cube_index. Qed.
 Print Assumptions C06_wiring_CubePartition_cube_index.
 
+Theorem C06_wiring_Slice_tab_label :
+  wsrc_Slice_tab_label = Some (WIf (WCmp "==" (WAttr (WIndex (WAttr (WSelf "_cube") "dimensions")
+      [WInt (0)%Z]) "dimension_type") (WAttr (WGlobal "DT") "CA_SUBVAR")) (WAttr (WIndex (WAttr
+      (WIndex (WAttr (WSelf "_cube") "dimensions") [WInt (0)%Z]) "valid_elements") [WSelf
+      "_slice_idx"]) "label") (WStr "")).
+Proof. exact Proofs.GenAgreeWiring_C06.gen_wiring_Slice_tab_label. Qed.
+Print Assumptions C06_wiring_Slice_tab_label.
+
+Theorem C06_wiring_Slice_tab_alias :
+  wsrc_Slice_tab_alias = Some (WIf (WCmp "==" (WAttr (WIndex (WAttr (WSelf "_cube") "dimensions")
+      [WInt (0)%Z]) "dimension_type") (WAttr (WGlobal "DT") "CA_SUBVAR")) (WAttr (WIndex (WAttr
+      (WIndex (WAttr (WSelf "_cube") "dimensions") [WInt (0)%Z]) "valid_elements") [WSelf
+      "_slice_idx"]) "alias") (WStr "")).
+Proof. exact Proofs.GenAgreeWiring_C06.gen_wiring_Slice_tab_alias. Qed.
+Print Assumptions C06_wiring_Slice_tab_alias.
+
 Theorem C06_wiring_Slice__measures :
   wsrc_Slice__measures = Some (WCall (WGlobal "SecondOrderMeasures") [WSelf "_cube"; WSelf
       "_dimensions"; WSelf "_slice_idx"] []).
 Proof. exact Proofs.GenAgreeWiring_C06.gen_wiring_Slice__measures. Qed.
 Print Assumptions C06_wiring_Slice__measures.
+
+Theorem C06_wiring_Strand_tab_label :
+  wsrc_Strand_tab_label = Some (WIf (WCmp "==" (WAttr (WIndex (WAttr (WSelf "_cube") "dimensions")
+      [WInt (0)%Z]) "dimension_type") (WAttr (WGlobal "DT") "CA_SUBVAR")) (WAttr (WIndex (WAttr
+      (WIndex (WAttr (WSelf "_cube") "dimensions") [WInt (0)%Z]) "valid_elements") [WSelf
+      "_slice_idx"]) "label") (WStr "")).
+Proof. exact Proofs.GenAgreeWiring_C06.gen_wiring_Strand_tab_label. Qed.
+Print Assumptions C06_wiring_Strand_tab_label.
+
+Theorem C06_wiring_Strand_tab_alias :
+  wsrc_Strand_tab_alias = Some (WIf (WCmp "==" (WAttr (WIndex (WAttr (WSelf "_cube") "dimensions")
+      [WInt (0)%Z]) "dimension_type") (WAttr (WGlobal "DT") "CA_SUBVAR")) (WAttr (WIndex (WAttr
+      (WIndex (WAttr (WSelf "_cube") "dimensions") [WInt (0)%Z]) "valid_elements") [WSelf
+      "_slice_idx"]) "alias") (WStr "")).
+Proof. exact Proofs.GenAgreeWiring_C06.gen_wiring_Strand_tab_alias. Qed.
+Print Assumptions C06_wiring_Strand_tab_alias.
 
 Theorem C06_wiring_Strand__measures :
   wsrc_Strand__measures = Some (WCall (WGlobal "StripeMeasures") [WSelf "_cube"; WSelf
